@@ -218,29 +218,83 @@ static const int NOP = 35;
 
 // SM input of input/example.gm2 (fixed for all on-shell points), light fermion masses set so that the
 // first two generations are not trivial
-static void setup_os(MSSMNoFV_onshell& m, const OP& p) {
+// SM input sets: 0 = input/example.gm2 (the values every earlier check uses); 1..3: alpha(MZ), alpha(0),
+// alpha_s, MW, MZ, mt, mb, mtau, mmu (and the light fermion masses) all changed
+struct SMSet { double aMZ, a0, as, MW, MZ, mt, mb, mtau, mmu, me, md, mu, ms, mc; };
+static const SMSet SMSETS[4] = {
+   {0.00775531, 0.00729735, 0.1184, 80.385, 91.1876, 173.34, 4.18, 1.777, 0.1056583715, 0.000510998928, 4.76052706e-03, 2.40534062e-03, 1.04230487e-01, 1.27183378e+00},
+   {0.00780000, 0.00730500, 0.1170, 80.200, 91.0000, 172.50, 4.25, 1.780, 0.1057000000, 0.000511500000, 4.70000000e-03, 2.30000000e-03, 1.00000000e-01, 1.28000000e+00},
+   {0.00765000, 0.00729000, 0.1200, 79.000, 92.5000, 175.00, 4.10, 1.750, 0.1050000000, 0.000510000000, 4.90000000e-03, 2.50000000e-03, 1.10000000e-01, 1.25000000e+00},
+   {0.00790000, 0.00731000, 0.1150, 81.000, 90.0000, 170.00, 4.30, 1.800, 0.1060000000, 0.000512000000, 4.60000000e-03, 2.20000000e-03, 0.95000000e-01, 1.30000000e+00}};
+
+static void set_sm(MSSMNoFV_onshell& m, int set, bool reversed = false) {
    const double Pi = 3.141592653589793;
-   m.set_alpha_MZ(0.00775531);
-   m.set_alpha_thompson(0.00729735);
-   m.set_g3(std::sqrt(4 * Pi * 0.1184));
-   m.get_physical().MFt = 173.34;
-   m.get_physical().MFb = 4.18;
-   m.get_physical().MFm = 0.1056583715;
-   m.get_physical().MFtau = 1.777;
-   m.get_physical().MVWm = 80.385;
-   m.get_physical().MVZ = 91.1876;
-   m.get_physical().MFe = 0.000510998928;
-   m.get_physical().MFd = 4.76052706e-03;
-   m.get_physical().MFu = 2.40534062e-03;
-   m.get_physical().MFs = 1.04230487e-01;
-   m.get_physical().MFc = 1.27183378e+00;
-   m.set_TB(p.tb);
-   m.set_Mu(p.Mu); m.set_MassB(p.M1); m.set_MassWB(p.M2); m.set_MassG(p.M3);
-   m.set_MA0(p.MA); m.set_scale(p.Q);
-   for (int i = 0; i < 3; i++) {
-      m.set_ml2(i, i, p.ml2[i]); m.set_me2(i, i, p.me2[i]); m.set_mq2(i, i, p.mq2[i]);
-      m.set_mu2(i, i, p.mu2[i]); m.set_md2(i, i, p.md2[i]);
-      m.set_Ae(i, i, p.Ae[i]); m.set_Ad(i, i, p.Ad[i]); m.set_Au(i, i, p.Au[i]);
+   const SMSet& q = SMSETS[set & 3];
+   if (!reversed) {
+      m.set_alpha_MZ(q.aMZ);
+      m.set_alpha_thompson(q.a0);
+      m.set_g3(std::sqrt(4 * Pi * q.as));
+      m.get_physical().MFt = q.mt;
+      m.get_physical().MFb = q.mb;
+      m.get_physical().MFm = q.mmu;
+      m.get_physical().MFtau = q.mtau;
+      m.get_physical().MVWm = q.MW;
+      m.get_physical().MVZ = q.MZ;
+      m.get_physical().MFe = q.me;
+      m.get_physical().MFd = q.md;
+      m.get_physical().MFu = q.mu;
+      m.get_physical().MFs = q.ms;
+      m.get_physical().MFc = q.mc;
+   } else {
+      m.get_physical().MFc = q.mc;
+      m.get_physical().MFs = q.ms;
+      m.get_physical().MFu = q.mu;
+      m.get_physical().MFd = q.md;
+      m.get_physical().MFe = q.me;
+      m.get_physical().MVZ = q.MZ;
+      m.get_physical().MVWm = q.MW;
+      m.get_physical().MFtau = q.mtau;
+      m.get_physical().MFm = q.mmu;
+      m.get_physical().MFb = q.mb;
+      m.get_physical().MFt = q.mt;
+      m.set_g3(std::sqrt(4 * Pi * q.as));
+      m.set_alpha_thompson(q.a0);
+      m.set_alpha_MZ(q.aMZ);
+   }
+}
+
+static void set_susy(MSSMNoFV_onshell& m, const OP& p, bool reversed = false) {
+   if (!reversed) {
+      m.set_Mu(p.Mu); m.set_MassB(p.M1); m.set_MassWB(p.M2); m.set_MassG(p.M3);
+      m.set_MA0(p.MA); m.set_scale(p.Q);
+      for (int i = 0; i < 3; i++) {
+         m.set_ml2(i, i, p.ml2[i]); m.set_me2(i, i, p.me2[i]); m.set_mq2(i, i, p.mq2[i]);
+         m.set_mu2(i, i, p.mu2[i]); m.set_md2(i, i, p.md2[i]);
+         m.set_Ae(i, i, p.Ae[i]); m.set_Ad(i, i, p.Ad[i]); m.set_Au(i, i, p.Au[i]);
+      }
+   } else {
+      for (int i = 2; i >= 0; i--) {
+         m.set_Au(i, i, p.Au[i]); m.set_Ad(i, i, p.Ad[i]); m.set_Ae(i, i, p.Ae[i]);
+         m.set_md2(i, i, p.md2[i]); m.set_mu2(i, i, p.mu2[i]); m.set_mq2(i, i, p.mq2[i]);
+         m.set_me2(i, i, p.me2[i]); m.set_ml2(i, i, p.ml2[i]);
+      }
+      m.set_scale(p.Q); m.set_MA0(p.MA);
+      m.set_MassG(p.M3); m.set_MassWB(p.M2); m.set_MassB(p.M1); m.set_Mu(p.Mu);
+   }
+}
+
+// ORDER of the setter calls (p.spare[1]) and SM input set (p.spare[2]):
+//   0 canonical: SM inputs, tan(beta), SUSY parameters          1 tan(beta) first, then SM inputs, SUSY parameters
+//   2 SUSY parameters, tan(beta), SM inputs last of all         3 reversed canonical (every setter in reverse order)
+//   4 canonical with another SM set, then the SM inputs overwritten with the wanted set (tan(beta) not set again)
+static void setup_os(MSSMNoFV_onshell& m, const OP& p) {
+   const int order = int(p.spare[1]), sm = int(p.spare[2]) & 3;
+   switch (order) {
+   case 1: m.set_TB(p.tb); set_sm(m, sm); set_susy(m, p); break;
+   case 2: set_susy(m, p); m.set_TB(p.tb); set_sm(m, sm); break;
+   case 3: set_susy(m, p, true); m.set_TB(p.tb); set_sm(m, sm, true); break;
+   case 4: set_sm(m, (sm + 1) & 3); m.set_TB(p.tb); set_susy(m, p); set_sm(m, sm); break;
+   default: set_sm(m, sm); m.set_TB(p.tb); set_susy(m, p); break;
    }
    m.do_force_output(p.force != 0);
 }
@@ -296,6 +350,10 @@ static void dump_os(const MSSMNoFV_onshell& m, Out& o, bool full) {
    o.putm("pole_MSt", ph.MSt); o.putm("pole_Mhh", ph.Mhh); o.putm("pole_MAh", ph.MAh);
    o.putm("Ye", m.get_Ye().diagonal()); o.putm("Yd", m.get_Yd().diagonal()); o.putm("Yu", m.get_Yu().diagonal());
    o.put("MB_DRbar_MZ", m.get_MB()); o.put("BMu", m.get_BMu());
+   o.put("par_Mu", m.get_Mu()); o.put("par_TB", m.get_TB());      // inputs as stored (par_Mu changes sign under the flip: not compared)
+   // sfermion left-right mixing |Z(0,1)| (coverage statistics of the scaled families; basis dependent at degeneracy: not compared)
+   o.put("mix_Sm", std::abs(m.get_ZM(0, 1))); o.put("mix_Stau", std::abs(m.get_ZTau(0, 1)));
+   o.put("mix_Sb", std::abs(m.get_ZB(0, 1))); o.put("mix_St", std::abs(m.get_ZT(0, 1)));
 }
 
 // spectrum + every quantity on a model whose inputs have been set (fresh or reused object)
@@ -394,8 +452,9 @@ static void do_osf(long nfam, long nk, int mode) {
 //          the entries the conversion overwrites set to the initial values; convert_to_onshell(1e-8, 1000).
 // force_output is always set.  Per case three lines in the format of `tree` (final Lagrangian parameters, the
 // DR-bar spectrum and get_problems() AFTER the call, all from the public getters):
-//   run 1: fresh object, run 2: another fresh object, run 3: the object of run 1 with all inputs set again and
-//   the entry point called a second time.      "X <what>" replaces a line if an exception escapes.
+//   run 1: fresh object, run 2: another fresh object, run 4 (printed third): the entry point called once more on
+//   the object of run 2 without setting anything, run 3 (printed last): the object of run 1 with all inputs set
+//   again and the entry point called a second time.   Set-up order and SM set: spare[1], spare[2] (see setup_os).      "X <what>" replaces a line if an exception escapes.
 static const int NSP = NOP + 5;
 
 static void setup_entry(MSSMNoFV_onshell& m, const OP& p, const double* init, const MSSMNoFV_onshell_physical* pole) {
@@ -429,13 +488,14 @@ static void do_spec(long n) {
       const bool slha = p.spare[0] != 0;
       MSSMNoFV_onshell_physical pole; bool have_pole = false;
       if (slha) {
-         try { MSSMNoFV_onshell g; setup_os(g, p); g.do_force_output(true); g.calculate_masses(); pole = g.get_physical(); have_pole = true; }
-         catch (const std::exception& e) { for (int k = 0; k < 3; k++) std::printf("X generating point: %s\n", oneline(e.what()).c_str()); continue; }
+         try { MSSMNoFV_onshell g; OP pc = p; pc.spare[1] = 0; setup_os(g, pc); g.do_force_output(true); g.calculate_masses(); pole = g.get_physical(); have_pole = true; }
+         catch (const std::exception& e) { for (int k = 0; k < 4; k++) std::printf("X generating point: %s\n", oneline(e.what()).c_str()); continue; }
       }
       const MSSMNoFV_onshell_physical* pp = have_pole ? &pole : nullptr;
       MSSMNoFV_onshell m1; setup_entry(m1, p, init, pp); emit_entry(m1, slha);
       MSSMNoFV_onshell m2; setup_entry(m2, p, init, pp); emit_entry(m2, slha);
-      setup_entry(m1, p, init, pp); emit_entry(m1, slha);
+      emit_entry(m2, slha);                                   // run 4: the entry point once more, nothing set again
+      setup_entry(m1, p, init, pp); emit_entry(m1, slha);     // run 3: all inputs set again on the evaluated object
    }
 }
 
